@@ -3,13 +3,18 @@
   same fact, needed to chain their theorems (Props/C01, Props/C12):
    * C03's `UniqueBindersGlobal` (Scc/Core/Unique.lean) ⇒ the checker `uniqueBindersCheck` accepts
      (completeness of the checker), and ⇒ core2axcut's `uniqueIdsCheck` (Scc/Core2AxCut/FreeVarsSpec.lean);
-   * `wtFsScopedCheck ⇒ wtFsCheck`;  `Core.Prog.wellTyped ⇒ chiralityOk`.
+   * `wtFsScopedCheck ⇒ wtFsCheck`;  `Core.Prog.wellTyped ⇒ chiralityOk`;
+   * C03's `UniqueBindersGlobal` ⇒ `idsBoundedCheck`, and "`main` is the first definition and takes integer
+     producers" (`MainHead3`, Scc/Pipeline/Lemmas.lean) ⇒ `mainIntParams` — the two extra side conditions of
+     `C04_sem` (Scc/Core2AxCut/NoLift.lean).
 -/
 import Scc.Core.ProofsUniqueD
 import Scc.Core2AxCut.FsTyping
 import Scc.Core2AxCut.FreeVarsSpec
 import Scc.Core.Typing
 import Scc.Core.Focus
+import Scc.Core2AxCut.NoLift
+import Scc.Pipeline.Lemmas
 
 namespace Scc.Pipeline
 
@@ -81,6 +86,29 @@ theorem uniqueIdsCheck_of_global {p : Core.FsProg}
 theorem uniqueIdsCheck_of_check {p : Core.FsProg} (h : Core.uniqueBindersCheck p = true) :
     Core2AxCut.uniqueIdsCheck p = true :=
   uniqueIdsCheck_of_global fun d hd => (Core.uniqueBindersCheck_sound h d hd).1
+
+/-- C03's global uniqueness bounds every parameter and binder id by `maxId`: `idsBoundedCheck` of `C04_sem` -/
+theorem idsBoundedCheck_of_global {p : Core.FsProg}
+    (h : ∀ d ∈ p.defs, Core.UniqueBindersGlobal p.maxId d) : Core2AxCut.idsBoundedCheck p = true := by
+  simp only [Core2AxCut.idsBoundedCheck, List.all_eq_true]
+  intro d hd
+  simp only [Core2AxCut.idsBoundedDef, List.all_eq_true, decide_eq_true_eq]
+  intro i hi
+  exact (h d hd).2.2 i (List.mem_append_left _ hi)
+
+theorem idsBoundedCheck_of_check {p : Core.FsProg} (h : Core.uniqueBindersCheck p = true) :
+    Core2AxCut.idsBoundedCheck p = true :=
+  idsBoundedCheck_of_global fun d hd => (Core.uniqueBindersCheck_sound h d hd).1
+
+/-- the entry point of S3 takes integer producers: `mainIntParams` of `C04_sem` -/
+theorem mainIntParams_of_mainHead {k : Nat} {p : Core.FsProg} (h : MainHead3 k p.defs) :
+    Core2AxCut.mainIntParams p = true := by
+  obtain ⟨d, ds, hd, _, _, hint⟩ := h
+  simp only [Core2AxCut.mainIntParams, hd, List.all_eq_true, Bool.and_eq_true]
+  intro b hb
+  obtain ⟨h1, h2⟩ := hint b hb
+  rw [h1, h2]
+  exact ⟨by decide, by decide⟩
 
 /-! ## typing checks -/
 
